@@ -7,7 +7,7 @@ use crate::media::{Instrumented, SharedBuf};
 use crate::props::c01::W_PERSIST;
 use crate::props::c02::db_strategy;
 use crate::seq::{self, pick, Run, SeqCase, PLAIN};
-use msi::{Expr, Package, Select};
+use msi::{Expr, Package, Select, Value};
 use proptest::prelude::*;
 use serde::{Deserialize, Serialize};
 use serde_json::{json, Value as J};
@@ -126,8 +126,24 @@ pub fn check_case(case: &Case, st: &mut Stats) -> Check {
             ReadOp::SelectWhere(s, c, v) => {
                 let t = tname(*s);
                 let col = pkg.get_table(&t).map(|tb| tb.columns()[pick(*c, tb.columns().len())].name().to_string()).unwrap_or_default();
-                trace.push(format!("select from {t} where {col} >= {v}"));
-                if let Ok(rows) = pkg.select_rows(Select::table(t.as_str()).with(Expr::col(col.as_str()).ge(Expr::integer(*v)).or(Expr::col(col.as_str()).eq(Expr::string("a"))))) {
+                // the condition takes several shapes: a lone equality with a
+                // text that is in the pool, with one that is not, with the
+                // value an existing row holds, a null test, an integer test
+                let held: Option<Value> = pkg.select_rows(Select::table(t.as_str()).columns(&[col.as_str()])).ok().and_then(|mut rows| rows.next().map(|r| r[0].clone()));
+                let cond = match v.rem_euclid(6) {
+                    0 => Expr::col(col.as_str()).ge(Expr::integer(*v)).or(Expr::col(col.as_str()).eq(Expr::string("a"))),
+                    1 => Expr::col(col.as_str()).eq(Expr::string("a")),
+                    2 => Expr::col(col.as_str()).eq(Expr::string("a text no package of this run holds")),
+                    3 => match held {
+                        Some(Value::Str(text)) => Expr::col(col.as_str()).eq(Expr::string(text.as_str())),
+                        Some(Value::Int(i)) => Expr::col(col.as_str()).eq(Expr::integer(i)),
+                        _ => Expr::col(col.as_str()).eq(Expr::null()),
+                    },
+                    4 => Expr::col(col.as_str()).ne(Expr::null()),
+                    _ => Expr::col(col.as_str()).eq(Expr::integer(*v)),
+                };
+                trace.push(format!("select from {t} where {cond}"));
+                if let Ok(rows) = pkg.select_rows(Select::table(t.as_str()).with(cond)) {
                     let _ = rows.count();
                 }
             }
